@@ -15,10 +15,14 @@ class _Sentinel(object):
     """build a sentinel object for the SENTINEL singleton"""
     def __repr__(self):
         return "<SENTINEL>"
+    def __reduce__(self): # a singleton: unpickle to the one instance
+        return "SENTINEL"
 class _NoSentinel(object):
     """build a sentinel object for the NOSENTINEL singleton"""
     def __repr__(self):
         return "<NOSENTINEL>"
+    def __reduce__(self): # a singleton: unpickle to the one instance
+        return "NOSENTINEL"
 
 SENTINEL = _Sentinel()
 NOSENTINEL = _NoSentinel()
